@@ -466,6 +466,10 @@ func (c *AbstractVariantOperations) Lsh(
 		return nil, err
 	}
 
+	if value2.AsInteger() < 0 {
+		return nil, errors.NewBadRequestError("", "OUT_OF_RANGE", "Negative shift count in operation '<<'")
+	}
+
 	// Performs operation.
 	switch value1.Type() {
 	case Integer:
@@ -501,6 +505,10 @@ func (c *AbstractVariantOperations) Rsh(
 	value2, err = c.Overrides.Convert(value2, Integer)
 	if err != nil {
 		return nil, err
+	}
+
+	if value2.AsInteger() < 0 {
+		return nil, errors.NewBadRequestError("", "OUT_OF_RANGE", "Negative shift count in operation '>>'")
 	}
 
 	// Performs operation.
